@@ -141,6 +141,23 @@ def oracle_props(ck, rng):
             a0 = float(mm.align(x, (0, 0, 0), q, p).score)
             if abs(l0[1, 1, 1] - s0) > 2e-3 or abs(a0 - s0) > 2e-3:
                 fails.append(f"{M.__name__}: score {s0:.4f}, landscape centre {l0[1,1,1]:.4f}, zero-range align {a0:.4f}")
+        # the same agreement, and the score itself, for the sub-volume in other units (densities of order 1e-6 or 1e4): ZNCC and NCC scores,
+        # landscapes and alignment scores are unchanged by positive rescaling
+        for gain_ in (1e-6, 1e4, 1e-3):
+            xg = (x * np.float32(gain_)).astype(np.float32)
+            for M in (ZNCCAlignment, NCCAlignment):
+                mm = M(t, mask, **kw)
+                s1 = float(mm.score(x, q, p)); sg = float(mm.score(xg, q, p))
+                lg = float(np.asarray(mm.landscape(xg, (1, 1, 1), q, p))[1, 1, 1]); ag = float(mm.align(xg, (0, 0, 0), q, p).score)
+                if M is NCCAlignment:
+                    # (score = landscape centre = zero-range score is stated for ZNCC and FSC; for NCC the landscape and the alignment score are
+                    #  compared with themselves at the original amplitude)
+                    l1 = float(np.asarray(mm.landscape(x, (1, 1, 1), q, p))[1, 1, 1]); a1 = float(mm.align(x, (0, 0, 0), q, p).score)
+                    if abs(sg - s1) > 2e-3 or abs(lg - l1) > 2e-3 or abs(ag - a1) > 2e-3:
+                        fails.append(f"NCCAlignment gain {gain_:g}: score {s1:.4f} -> {sg:.4f}, landscape centre {l1:.4f} -> {lg:.4f}, zero-range align {a1:.4f} -> {ag:.4f}")
+                    continue
+                if abs(sg - s1) > 2e-3 or abs(lg - s1) > 2e-3 or abs(ag - s1) > 2e-3:
+                    fails.append(f"{M.__name__} gain {gain_:g}: score {s1:.4f} -> {sg:.4f}, landscape centre {lg:.4f}, zero-range align {ag:.4f}")
         # landscape maximum lies at the reported displacement (all models)
         d = rng.integers(-2, 3, size=3)
         xs = np.roll(t, tuple(d), axis=(0, 1, 2))
